@@ -314,7 +314,8 @@ class _Gen:
                     body.append({"do": "read", "deepcopy": rng.random() < 0.3})
             op["body"] = body
             r = rng.random()
-            op["result"] = "prune" if r < 0.15 else ("fail" if r < 0.25 else [self.fval() for _ in range(self.nobj)])
+            # "nan" / "none" / "count": values tell() rejects - the trial fails with a warning attr
+            op["result"] = "prune" if r < 0.15 else ("fail" if r < 0.25 else (rng.choice(["nan", "none", "count"]) if r < 0.4 else [self.fval() for _ in range(self.nobj)]))
             op["callback_read"] = rng.random() < 0.7
             waiting = [i for i, s in enumerate(self.states) if s == "WAITING"]
             st = "COMPLETE" if isinstance(op["result"], list) else ("PRUNED" if op["result"] == "prune" else "FAIL")
@@ -983,6 +984,15 @@ class _Run:
                 raise optuna.TrialPruned()
             if res == "fail":
                 raise ValueError("objective failed")
+            if res == "nan":
+                me.sim.count("objective_returned_invalid_value")
+                return float("nan")
+            if res == "none":
+                me.sim.count("objective_returned_invalid_value")
+                return None
+            if res == "count":
+                me.sim.count("objective_returned_invalid_value")
+                return [0.5] * (len(me.study.directions) + 1)
             vals = [_f(v) for v in res]
             return vals[0] if len(vals) == 1 else vals
 
